@@ -500,7 +500,53 @@ func c08filter(c *Ctx, fn *ssa.Function) {
 func c08events(c *Ctx, add, del *ssa.Function) {
 	r := c.R
 	r.Rule("FRAME(updatePod): updatePod either always performs deletePod(old) followed by addPod(new), or every path that skips them is guarded by comparisons that mention every podAssignInfo field addPod reads (a skipped update may not change anything the sums depend on)")
-	if up := c.Fn(loadawarePkg, "nodeInfo", "updatePod"); up != nil && add != nil {
+	up := c.FnOpt(loadawarePkg, "nodeInfo", "updatePod")
+	if up == nil {
+		// no separate update step: the replace path of AddOrUpdatePod itself has to take the old entry out of the sums
+		if fn := c.Fn(loadawarePkg, "nodeInfo", "AddOrUpdatePod"); fn != nil {
+			f := an.Facts{}
+			for _, b := range fn.Blocks {
+				for _, in := range b.Instrs {
+					switch x := in.(type) {
+					case *ssa.UnOp:
+						if x.Op == token.MUL && strings.HasSuffix(an.Path(x), ".deleted") {
+							f[x] = an.False
+						}
+					case *ssa.BinOp:
+						if (x.Op == token.NEQ || x.Op == token.EQL) && an.IsNilConst(x.Y) && (strings.HasSuffix(an.Path(x.X), ".nodeMetric") || strings.Contains(an.Path(x.X), ".podInfos[")) {
+							f[x] = an.True
+							if x.Op == token.EQL {
+								f[x] = an.False
+							}
+						}
+					}
+				}
+			}
+			var seq []string
+			argOK := true
+			for _, cl := range an.Calls(fn, false) {
+				switch an.ShortCallee(cl.Common()) {
+				case "deletePod":
+					seq = append(seq, "deletePod")
+					argOK = argOK && strings.Contains(an.Path(cl.Common().Args[1]), ".podInfos[")
+				case "addPod":
+					seq = append(seq, "addPod")
+				}
+			}
+			reach := an.Explore(fn, nil, f, func(in ssa.Instruction) bool {
+				cl, ok := in.(ssa.CallInstruction)
+				return ok && an.ShortCallee(cl.Common()) == "deletePod"
+			})
+			hitAdd := false
+			for _, in := range reach.Instrs() {
+				if cl, ok := in.(ssa.CallInstruction); ok && an.ShortCallee(cl.Common()) == "addPod" {
+					hitAdd = true
+				}
+			}
+			r.Check(len(f) >= 3 && argOK && strings.Join(seq, ";") == "deletePod;addPod" && len(reach.Returns()) == 0 && !hitAdd, "FRAME", fkey(fn)+"/replace-pair", c.Pos(fn.Pos()), "a replaced pod is taken out of the sums (deletePod(previous entry)) before the new version is added", "AddOrUpdatePod can add the new version of a known pod without first subtracting the previous entry (or subtracts something else): the sums count the pod twice")
+		}
+	}
+	if up != nil && add != nil {
 		key := fkey(up)
 		reads := map[string]bool{}
 		if len(add.Params) == 2 {
@@ -567,8 +613,11 @@ func c08events(c *Ctx, add, del *ssa.Function) {
 						f[x] = an.False
 					}
 				case *ssa.BinOp:
-					if x.Op == token.NEQ && an.IsNilConst(x.Y) && (strings.HasSuffix(an.Path(x.X), ".nodeMetric") || strings.Contains(an.Path(x.X), ".podInfos[")) {
-						f[x] = an.True
+					if (x.Op == token.NEQ || x.Op == token.EQL) && an.IsNilConst(x.Y) && (strings.HasSuffix(an.Path(x.X), ".nodeMetric") || strings.Contains(an.Path(x.X), ".podInfos[")) {
+						f[x] = an.True // present
+						if x.Op == token.EQL {
+							f[x] = an.False
+						}
 					}
 				}
 			}
